@@ -154,6 +154,11 @@ func newTokenLiteralIterator(astNode TokenProvider) *tokenLiteralIterator {
 		nextChild := astNode.GetChild(idx)
 
 		if terminalNode, typeOK := nextChild.(*antlr.TerminalNodeImpl); typeOK {
+			// The SP token also matches comments, whose text does not trim to nothing: `1 /* one */ + 2`
+			if terminalNode.GetSymbol().GetTokenType() == parser.CypherLexerSP {
+				continue
+			}
+
 			formattedTerminalNodeText := strings.TrimSpace(terminalNode.GetText())
 
 			if len(formattedTerminalNodeText) > 0 {
